@@ -19,6 +19,11 @@ THEOREMS = [
     "Gwcs.BBox.nan_is_inside",
     "Gwcs.BBox.batch_is_map",
     "Gwcs.BBox.pixel_bounds_eq_box",
+    "Gwcs.BBox.toF_modelBox",
+    "Gwcs.BBox.copy_preserves_axes",
+    "Gwcs.BBox.own_reading_transposes",
+    "Gwcs.BBox.mask_order_independent",
+    "Gwcs.BBox.flip_changes_reading",
     "Gwcs.BBox.edge_inclusive",
     "Gwcs.BBox.inside_iff_closed",
     "Gwcs.Pipe.set_get_roundtrip",
@@ -92,6 +97,9 @@ def impl(case):
             else:
                 w.bounding_box = src.bounding_box
     res["box_back"] = _read_box(w)
+    if w.bounding_box is not None:
+        res["stored_order"] = w.bounding_box.order
+        res["stored_own"] = _read_box(w, order=None)
     pb = w.pixel_bounds
     res["pixel_bounds"] = None if pb is None else [[_cf(a), _cf(b)] for a, b in pb]
     # a wrong-dimensional assignment must be rejected and change nothing
@@ -182,6 +190,15 @@ def _dec(s):
 
 
 def request(case, res):
+    req = _request(case, res)
+    if case["box"] is not None and case.get("how", "setter") != "setter" and len(case["ab"]) > 1:
+        # the box as it is stored on the astropy model: its own ('C') order, last input first
+        req.pop("box")
+        req["obox"] = {"order": res.get("stored_order", "C"), "stored": res.get("stored_own")}
+    return req
+
+
+def _request(case, res):
     return {"op": "mask", "box": None if case["box"] is None else [[C.f2w(a), C.f2w(b)] for a, b in case["box"]],
             "ab": [[C.f2w(a), C.f2w(b)] for a, b in case["ab"]],
             "fill": C.f2w(float("nan") if case["fill"] is None else case["fill"]),
@@ -192,6 +209,9 @@ def request(case, res):
 def compare(case, res, resp):
     if "ok" not in resp:
         return "model error %s" % resp
+    if resp["ok"].get("box_f") is not None and resp["ok"]["box_f"] != res["box_back"]:
+        return "per-axis reading of the stored box: implementation %s, model %s (stored %s in order %s)" % (
+            res["box_back"], resp["ok"]["box_f"], res.get("stored_own"), res.get("stored_order"))
     if resp["ok"]["vals"] != res["vals"]:
         for pt, a, b in zip(case["pts"], res["vals"], resp["ok"]["vals"]):
             if a != b:
